@@ -98,7 +98,7 @@ fn sequences(ctx: &Ctx, rounds: u64) {
             let t = tuple(&forms[fi], &mut rng);
             let text = forms[fi].text(&t);
             if rng.chance(1, 8) {
-                src.push_str(".dseg\n.cseg\n");
+                src.push_str(&format!(".dseg\nnoise_lbl_{}:\n.cseg\n", lines.len()));
             }
             src.push_str(&text);
             src.push('\n');
@@ -120,6 +120,16 @@ fn sequences(ctx: &Ctx, rounds: u64) {
         for fi in forbidden.iter() {
             let f = &forms[*fi];
             let mut src = format!(".device {}\n", name);
+            // sometimes the code follows (non-empty) data / EEPROM segments, or is split by them
+            let seg_noise = |rng: &mut Rng, k: usize| -> String {
+                match rng.below(5) {
+                    0 => format!(".dseg\ndata_lbl_{}:\n.cseg\n", k),
+                    1 => format!(".eseg\nee_lbl_{}:\n.cseg\n", k),
+                    2 => format!(".dseg\nd2_lbl_{}:\n.eseg\ne2_lbl_{}:\n.cseg\n", k, k),
+                    _ => String::new(),
+                }
+            };
+            src.push_str(&seg_noise(&mut rng, 0));
             let siblings: Vec<usize> = allowed.iter().cloned().filter(|a| forms[*a].mn == f.mn).collect();
             let k = 1 + rng.usize(6);
             for j in 0..k {
@@ -127,6 +137,9 @@ fn sequences(ctx: &Ctx, rounds: u64) {
                 let t = tuple(&forms[pick], &mut rng);
                 src.push_str(&forms[pick].text(&t));
                 src.push('\n');
+                if rng.chance(1, 4) {
+                    src.push_str(&seg_noise(&mut rng, j + 1));
+                }
             }
             let t = tuple(f, &mut rng);
             src.push_str(&f.text(&t));
@@ -197,7 +210,7 @@ pub fn run(ctx: &Ctx) -> i32 {
     ctx.exhaustive.store(true, std::sync::atomic::Ordering::Relaxed);
     fw::finish(
         ctx,
-        "every device of DEVICES x every instruction form of the reference ISA (the lds/sts form of the device's core) x lowest and highest legal operand tuple (thorough: + 256 random tuples); forbidden iff a flag of the device forbids the form per the DisabledOptions documentation; plus per device 3 (thorough 200) whole programs of 10-40 allowed instructions (must build to the concatenated encodings) and, for every forbidden form, a program where it follows 1-6 allowed instructions incl. allowed forms of the same mnemonic (must fail); distinct_nontrivial = distinct (device, form) pairs",
+        "every device of DEVICES x every instruction form of the reference ISA (the lds/sts form of the device's core) x lowest and highest legal operand tuple (thorough: + 256 random tuples); forbidden iff a flag of the device forbids the form per the DisabledOptions documentation; plus per device 3 (thorough 200) whole programs of 10-40 allowed instructions (must build to the concatenated encodings) and, for every forbidden form, a program where it follows 1-6 allowed instructions incl. allowed forms of the same mnemonic, with non-empty data / EEPROM segments before and between the code (must fail); distinct_nontrivial = distinct (device, form) pairs",
         &["flag→forms map transcribed from the doc comments of DisabledOptions (refmodel/devices.rs); flags read from the DEVICES table at run time, as the statement says"],
     )
 }
